@@ -83,7 +83,7 @@ def c07a(F, R):
 SILENT = {"IsNewline", "IgnoredWithoutWarning", "UnexpectedEOF"}
 
 
-@rule("C07", "C07.b.parser-arm-discipline", floor=10)
+@rule("C07", "C07.b.parser-arm-discipline", floor=6)
 def c07b(F, R):
     """every LexError arm of parse_from_file pushes a node or a parse error (and then recovers), except the reviewed silent set"""
     f = fn_by_suffix(F, "RVParser::<T>::parse_from_file")
@@ -193,7 +193,7 @@ def c07h(F, R):
             R.bad("Expected|newline-guard", "after `Expected .. found NEWLINE` (a missing trailing operand) recovery still skips to the next newline: the whole following line is dropped without nodes or an error", loc(recs[0]))
 
 
-@rule("C07", "C07.c.silent-variant-construction", floor=4)
+@rule("C07", "C07.c.silent-variant-construction", floor=2)
 def c07c(F, R):
     """the silent LexError variants are constructed only where they are meant: comment token, newline token, exhausted lexer"""
     p = F.method(PNODE, "try_from", trait_ref=r"TryFrom<&mut core::iter::adapters::peekable::Peekable")
@@ -259,7 +259,7 @@ def c07c(F, R):
         R.bad("UnexpectedEOF|missing", "expected the two UnexpectedEOF constructions of AnnotatedLexer::get_any / peek_any")
 
 
-@rule("C07", "C07.d.token-consuming-loops", floor=2)
+@rule("C07", "C07.d.token-consuming-loops", floor=1)
 def c07d(F, R):
     """every loop in the decoder that consumes tokens either feeds a node or ends in a reported IgnoredWithWarning"""
     p = F.method(PNODE, "try_from", trait_ref=r"TryFrom<&mut core::iter::adapters::peekable::Peekable")
@@ -364,7 +364,7 @@ def c07j(F, R):
             R.bad(f"{name}|consuming", f"{name} answers UnexpectedEOF for every read at the end of the input, also in the middle of a statement: `addi t0, t0` as the last bytes of a file (no trailing newline) is dropped without a node or an error", loc(n))
 
 
-@rule("C07", "C07.g.eof-in-optional-lookahead", floor=20)
+@rule("C07", "C07.g.eof-in-optional-lookahead", floor=12)
 def c07g(F, R):
     """a successful decode path never depends on a look-ahead read through `?` whose token it then ignores: at end of file that `?` aborts the decode and the complete instruction is dropped"""
     from .decode import eof_optional
@@ -393,7 +393,7 @@ def c07g(F, R):
                 R.ok(key)
 
 
-@rule("C07", "C07.f.newline-tested-before-consume", floor=3)
+@rule("C07", "C07.f.newline-tested-before-consume", floor=2)
 def c07f(F, R):
     """in every lexer loop that is sensitive to the end of line, the newline test comes before a character is consumed (so the newline itself is left for the Newline token)"""
     n = 0
@@ -423,7 +423,7 @@ def c07f(F, R):
         R.bad("coverage", f"only {n} end-of-line-sensitive loops found in the lexer (expected >= 3)")
 
 
-@rule("C07", "C07.e.unclassified-operands", floor=20)
+@rule("C07", "C07.e.unclassified-operands", floor=12)
 def c07e(F, R):
     """no successful decode path consumes a token whose kind it never established (such text would be dropped silently)"""
     ctors = node_ctor_table(F)
@@ -482,7 +482,7 @@ def _include_site(f):
 
 
 
-@rule("C15", "C15.a.lexer-stack-pairing", floor=4)
+@rule("C15", "C15.a.lexer-stack-pairing", floor=2)
 def c15a(F, R):
     """the include stack is pushed only for the base file and a successfully imported include, popped only at end of file, and an include directive is never also kept as a node"""
     f = fn_by_suffix(F, "RVParser::<T>::parse_from_file")
@@ -558,7 +558,7 @@ def peel_cond(c):
     return c
 
 
-@rule("C15", "C15.b.reader-faults-become-diagnostics", floor=6)
+@rule("C15", "C15.b.reader-faults-become-diagnostics", floor=3)
 def c15b(F, R):
     """every FileReaderError maps to a ParseError that carries the directive's path token, and a failed include is reported and parsing continues"""
     tp = F.method(FRERR, "to_parse_error")
@@ -739,8 +739,8 @@ def _c15c_walk_details(F, R, f, name, guard, parent_p):
 
 
 
-@rule("C06", "C06.i.include-cycles-are-cut", floor=4)
-@rule("C15", "C15.c.reimport-guard", floor=4)
+@rule("C06", "C06.i.include-cycles-are-cut", floor=3)
+@rule("C15", "C15.c.reimport-guard", floor=3)
 def c15c(F, R):
     """sibling check of FileReader::import_file impls: re-import detection must be live and depend on the path (or the reader must refuse every include)"""
     impls = [i for i in F.impls if (i.get("trait") or "").split("::")[-1] == "FileReader"]
@@ -827,7 +827,7 @@ def c15c(F, R):
             _c15c_walk_details(F, R, f, name, guard, parent_p)
 
 
-@rule("C15", "C15.d.include-relative-to-its-own-file", floor=4)
+@rule("C15", "C15.d.include-relative-to-its-own-file", floor=2)
 def c15d(F, R):
     """an include is imported with the directive's own path text and the id of the file the directive's token lives in, and the lexer pushed for it carries the id/text that same import returned"""
     f = fn_by_suffix(F, "RVParser::<T>::parse_from_file")
@@ -1171,7 +1171,7 @@ def c09e(F, R):
         R.bad("initial-state", f"Lexer::new starts with (row, col) = ({row[0]}, {col[0]}) if the text begins with a newline and ({row[1]}, {col[1]}) otherwise; consume_char reaches the first character of every later line with ({want_row[1]}, {want_col[1]}) and a newline with (+{want_row[0]}, {want_col[0]}): first-line columns / line numbers after a leading blank line are shifted", nf["sp"])
 
 
-@rule("C09", "C09.c.index-bases", floor=7)
+@rule("C09", "C09.c.index-bases", floor=4)
 def c09c(F, R):
     """compact output is 1-based in line and columns, pretty output indexes the file 0-based and prints line+1, JSON is 0-based throughout"""
     acc = lambda f: sorted(n["name"] for n in walk(f["hir"]["value"], pats=False) if n.get("k") == "MethodCall" and re.match(r"(zero|one)_idx_|raw_index", n["name"]))
@@ -1530,7 +1530,7 @@ def _unicode_summary(F):
     return summary
 
 
-@rule("C07", "C07.i.newline-consumed-only-as-a-token", floor=20)
+@rule("C07", "C07.i.newline-consumed-only-as-a-token", floor=12)
 def c07i(F, R):
     """abstract interpretation of the lexer's cursor: every `consume_char()` reachable from `Lexer::next` steps over a character already established not to be a newline (or, in the Newline arm, known to be one); a token or an error that swallows the line break glues the following line to the current one"""
     from .lexcursor import Cursor, Unextractable
@@ -1583,7 +1583,7 @@ def c09h(F, R):
             R.ok(key, detail="position taken on a character established not to be a line break", where=where)
 
 
-@rule("C18", "C18.h.excerpt-is-cut-at-the-first-visible-character", floor=2)
+@rule("C18", "C18.h.excerpt-is-cut-at-the-first-visible-character", floor=1)
 def c18h(F, R):
     """the pretty excerpt is left-aligned by dropping the leading blanks of the line: the offset used for the marker is the index of the *first* non-blank character (the search loop stops at its first hit), or the marker is shifted left by the length of the line's last word"""
     fr = [q for q in F.fns if q.endswith("PrettyPrint::format_region")]
@@ -1774,8 +1774,8 @@ def c07p(F, R):
         R.bad("condition", f"the recovery loop leaves when the token is{'' if b else ' not'} something other than the newline (newline -> {a}, other -> {b}): the rest of a malformed line is not skipped but parsed as new statements, or the skip runs on into the following lines", loc(ifs[0]))
 
 
-@rule("C18", "C18.l.other-file-diagnostics-are-counted", floor=3)
-@rule("C15", "C15.g.other-file-diagnostics-are-counted", floor=3)
+@rule("C18", "C18.l.other-file-diagnostics-are-counted", floor=2)
+@rule("C15", "C15.g.other-file-diagnostics-are-counted", floor=2)
 def c15g(F, R):
     """a diagnostic that is not shown because it lies in another file is counted, and the count is announced: the counter starts at 0, is incremented by 1 exactly where the diagnostic is skipped, and the notice is printed when it is greater than 0"""
     dp = [q for q in F.fns if q.endswith("PrettyPrint as rva::printer::ErrorDisplay>::display_errors")]
@@ -1813,7 +1813,7 @@ def c15g(F, R):
 
 
 @rule("C19", "C19.f.the-dump-is-printed", floor=2)
-@rule("C18", "C18.m.every-channel-is-written", floor=4)
+@rule("C18", "C18.m.every-channel-is-written", floor=3)
 def c18m(F, R):
     """in the CLI every output the user asks for is produced: each printer that is constructed has `display_errors` called on it, and the text of the YAML / debug dump of the graph is handed to `println!`"""
     if "rva::main" not in F.fns:
@@ -1858,7 +1858,7 @@ def c18m(F, R):
             R.bad("dump|debug", "`--debug` no longer prints the graph", loc(dbg[0]))
 
 
-@rule("C18", "C18.f.excerpt-gutter-matches-printed-number", floor=2)
+@rule("C18", "C18.f.excerpt-gutter-matches-printed-number", floor=1)
 def c18f(F, R):
     """in the pretty excerpt the blank gutter of the marker line is as wide as the line-number gutter above it: its width is computed from the very value that is printed as the line number (same binding) plus the literal characters printed before the number; otherwise the marker slides off the reported columns on lines 10, 100, ..."""
     fr = [q for q in F.fns if q.endswith("PrettyPrint::format_region")]
